@@ -98,6 +98,50 @@ def differential(eng, rep, topo, n, steps, mode):
             p2.close()
 
 
+def listener_last_restart(eng, rep, n):
+    """a '?' listener registers AFTER the synchronized consumer; the (slow) publisher is killed late in the stream and started
+    again: the synchronized consumer's request for the id it is at must pull the new publisher up to that id at once - with the
+    listener exactly as without it (differential on the time until the consumer's next frame)"""
+    from .c06 import step_until, POLL_NS
+    full = topos.eph_side(maxseq=40, conn_ticks=5)
+    full.filters.pop('W')
+    full.names.remove('W')
+    full.filters['S']['beh']['slow'] = True
+    full.name = 'EphSideSlowListenerLast'
+    sync = topos.sync_only(full)
+    for k in range(n):
+        heal = {}
+        for tp, with_eph in ((full, True), (sync, False)):
+            pipe = SimPipeline(tp, local_clocks=False)
+            w = pipe.world
+            try:
+                pipe.start()
+                if with_eph:
+                    pipe.stall('E')
+                step_until(pipe, lambda p: len(p.delivered['K']) >= 1, 3000)
+                if with_eph:
+                    pipe.resume('E')
+                nfr = 6 + 2 * k
+                step_until(pipe, lambda p: len(p.delivered['K']) >= nfr, 20000)
+                pipe.kill('S', False)
+                pipe.restart('S')
+                t0, mark = w.now_ns, len(pipe.delivered['K'])
+                step_until(pipe, lambda p: len(p.delivered['K']) > mark or w.now_ns > t0 + 60 * POLL_NS, 20000)
+                heal[with_eph] = (w.now_ns - t0) if len(pipe.delivered['K']) > mark else None
+            finally:
+                pipe.close()
+        rep.case(('listener-last-restart', k), nontrivial=True)
+        rep.traces += 2
+        a, b = heal[True], heal[False]
+        if b is not None and (a is None or a > b + 2 * POLL_NS):
+            rep.violation(f'C05_NoDelay: after a restart of its publisher (frame {6 + 2 * k}) the synchronized consumer K gets its next frame '
+                          f'after {None if a is None else a // 1_000_000} ms with a \'?\' listener registered after it, after {b // 1_000_000} ms '
+                          f'without the listener  [{full.name} {k}]',
+                          {'how': {'kind': 'differential', 'topo': full.name, 'mode': 'listener-last-restart', 'k': k, 'seed': eng.ctx.seed},
+                           'heal_ms': {'with': a, 'without': b}}, {'formula': 'C05_NoDelay', 'topology': full.name})
+    print(f'  [diff] {full.name}: {n} publisher restarts with the listener registered last', flush=True)
+
+
 def balance2_eph_first(**kw):
     t = topos.balance2_eph(**kw)
     t.name = 'Balance2EphFirst'
@@ -139,6 +183,8 @@ def scenarios(quick):
               (T.balance2_eph(maxseq=40, w_ms=(400, 100)), 3 if quick else 40, 12000, 'late'),
               # a consumer that lists an ephemeral source before its synchronized one
               (topos.with_required(T.eph_first(maxseq=40, slowK=True)), 3 if quick else 40, 12000, 'run'),
+              # a join that has to pull one of its sources up to the sparse ids of the other, a listener attaching late to that source
+              (T.join_sparse_eph(maxseq=40), 3 if quick else 30, 9000, 'late'),
               # a slow consumer that is attached to its publisher twice (synchronized for one topic, '?' for another)
               (topos.with_required(T.dual_attach(maxseq=40, slowK=True)), 2 if quick else 30, 12000, 'run'),
               # the same with the listener attached from the very start (before the slow worker has registered): known finding
